@@ -91,7 +91,8 @@ struct Engine {
 
     // per canonical form: which signs (bit0 neg, bit1 zero, bit2 pos) are still possible under PC
     std::unordered_map<std::string, unsigned char> signs;
-    std::unordered_map<unsigned, bool> expr_cache;
+    // keyed by AST id; the expr is stored too so that the AST stays alive and its id cannot be recycled
+    std::unordered_map<unsigned, std::pair<z3::expr, bool>> expr_cache;
 
     Shared *sh = nullptr;
     int log_fd = -1;
@@ -330,7 +331,7 @@ inline bool decide_expr(const z3::expr &c0) {
     auto it = e->expr_cache.find(c.id());
     if (it != e->expr_cache.end()) {
         e->sh->cache_hits++;
-        return it->second;
+        return it->second.second;
     }
     bool t = model_truth(c);
     z3::expr other = t ? !c : c;
@@ -341,13 +342,13 @@ inline bool decide_expr(const z3::expr &c0) {
             assert_pc(other);
             adopt_model(*m);
             delete m;
-            e->expr_cache[c.id()] = !t;
+            e->expr_cache.insert(std::make_pair(c.id(), std::make_pair(c, !t)));
             return !t;
         }
         delete m;
         assert_pc(t ? c : !c);
     }
-    e->expr_cache[c.id()] = t;
+    e->expr_cache.insert(std::make_pair(c.id(), std::make_pair(c, t)));
     return t;
 }
 
@@ -357,12 +358,14 @@ inline int choose(int n, const std::string &label) {
     if (n <= 1) return 0;
     static int seq = 0;
     std::string name = "ch_" + label + "_" + std::to_string(seq++);
-    z3::expr c = e->ctx.int_const(name.c_str());
+    // bit-vector sort in fresh (bit-blasting) mode, integer sort otherwise
+    z3::expr c = e->fresh_mode ? e->ctx.bv_const(name.c_str(), 16) : e->ctx.int_const(name.c_str());
     e->ovars.push_back(c);
-    assert_pc(c >= 0 && c < n);
+    if (e->fresh_mode) assert_pc(z3::ult(c, e->ctx.bv_val(n, 16)));
+    else assert_pc(c >= 0 && c < n);
     int r = n - 1;
     for (int v = 0; v < n - 1; v++) {
-        if (decide_expr(c == v)) {
+        if (decide_expr(e->fresh_mode ? (c == e->ctx.bv_val(v, 16)) : (c == v))) {
             r = v;
             break;
         }
@@ -844,6 +847,7 @@ inline int run_cases(const Options &opt, const std::function<void(const Case &, 
             e->case_desc = line;
             sh->paths++;
             Case c = parse_case(line);
+            resolve_model(); // empty PC: start with the trivial model
             body(c, line);
             leaf_end();
         }
